@@ -87,6 +87,33 @@ func c17PurityOne(c *engine.Ctx, fn *pure.Fn, in *pure.Input) {
 	c.DistinctStr(fn.Name + "|" + in.Name)
 }
 
+// c17Retained is the two-call history check: the live result values of f(in) are retained,
+// rendered, then g(in2) runs, and the retained values are rendered again. A result that aliases
+// hidden shared state (a pooled or cached buffer, a reused scratch slice) changes under the later
+// call although each call, compared immediately, returns the right value.
+func c17Retained(c *engine.Ctx, fn, gn *pure.Fn, inName, in2Name string) {
+	c.Count("evaluations", 1)
+	in, in2 := pure.BuildByName(inName), pure.BuildByName(in2Name)
+	cs := c17Case{Part: "retained", Fns: []string{fn.Name, gn.Name}, Inputs: []string{inName, in2Name}}
+	var before, after string
+	if p, _ := engine.Guard(func() {
+		in.ResetKept()
+		fn.Call(in)
+		before = in.Rerender()
+		gn.Call(in2)
+		gn.Call(in2)
+		after = in.Rerender()
+	}); p != nil {
+		c.Count("purity_panics", 1)
+		return
+	}
+	if before != after {
+		c.Violate("retained/"+fn.Name+"/changed-by/"+gn.Name, fmt.Sprintf("the result of %s(%s), kept by the caller, changed when %s(%s) was called afterwards: %s", fn.Name, inName, gn.Name, in2Name, diffAt(before, after)), "retained", cs)
+		return
+	}
+	c.Count("retained_ok", 1)
+}
+
 func diffAt(a, b string) string {
 	i := 0
 	for i < len(a) && i < len(b) && a[i] == b[i] {
@@ -118,7 +145,7 @@ var raceFrameRe = regexp.MustCompile(`(?m)^\s+(github\.com/twpayne/go-geom[^\s(]
 
 func c17Run(c *engine.Ctx) {
 	// static precondition, re-checked from the current sources by the instrumenter
-	if b, err := os.ReadFile("/verif/.build/scan_sched.json"); err == nil {
+	if b, err := os.ReadFile(Home() + "/.build/scan_sched.json"); err == nil {
 		var scan map[string]any
 		if json.Unmarshal(b, &scan) == nil {
 			c.Note("static_scan", map[string]any{"go_statements": scan["go_statements"], "channel_operations": scan["channel_operations"],
@@ -139,8 +166,34 @@ func c17Run(c *engine.Ctx) {
 			}
 		}
 	}
+	// (A2) two-call histories with the first result retained: every ordered pair (f, g) on the
+	// same input and on up to two other inputs g accepts
+	for f := range fns {
+		for i := 0; i < nIn; i++ {
+			if !fns[f].Applies(pure.BuildInput(i)) {
+				continue
+			}
+			for g := range fns {
+				// g on the same input when it accepts it, else on the first input it accepts;
+				// f after itself additionally on two other inputs (quick) / every g on three (thorough)
+				want := 1
+				if g == f || c.Tier == "thorough" {
+					want = 3
+				}
+				others := 0
+				for d := 0; d < nIn && others < want; d++ {
+					j := (i + d) % nIn
+					if !fns[g].Applies(pure.BuildInput(j)) {
+						continue
+					}
+					others++
+					c17Retained(c, &fns[f], &fns[g], pure.InputName(i), pure.InputName(j))
+				}
+			}
+		}
+	}
 	// (B) and (C)
-	for _, part := range []struct{ bin, mode string }{{"/verif/.build/vc17s", "sched"}, {"/verif/.build/vc17r", "race"}} {
+	for _, part := range []struct{ bin, mode string }{{Home() + "/.build/vc17s", "sched"}, {Home() + "/.build/vc17r", "race"}} {
 		if c.ViolTotal() > 0 && part.mode == "race" {
 			// keep going: the race pass is independent evidence
 		}
@@ -148,7 +201,7 @@ func c17Run(c *engine.Ctx) {
 			c.SetCapped("binary " + part.bin + " not built: part " + part.mode + " skipped")
 			continue
 		}
-		outPath := filepath.Join("/verif/.build", fmt.Sprintf("c17-%s-%d.json", part.mode, os.Getpid()))
+		outPath := filepath.Join(Home()+"/.build", fmt.Sprintf("c17-%s-%d.json", part.mode, os.Getpid()))
 		cmd := exec.Command(part.bin, part.mode, c.Tier, outPath)
 		var stderr bytes.Buffer
 		cmd.Stderr = &stderr
@@ -239,21 +292,36 @@ func c17Replay(c *engine.Ctx, kind string, raw json.RawMessage) {
 	switch kind {
 	case "purity":
 		c17Purity(c, cs.Fns[0], cs.Inputs[0])
+	case "retained":
+		fns := pure.Registry()
+		var f, g *pure.Fn
+		for i := range fns {
+			if fns[i].Name == cs.Fns[0] {
+				f = &fns[i]
+			}
+			if fns[i].Name == cs.Fns[1] {
+				g = &fns[i]
+			}
+		}
+		if f == nil || g == nil {
+			panic("c17: unknown function in replay")
+		}
+		c17Retained(c, f, g, cs.Inputs[0], cs.Inputs[1])
 	case "sched":
-		tmp := filepath.Join("/verif/.build", fmt.Sprintf("c17-replay-%d.json", os.Getpid()))
+		tmp := filepath.Join(Home()+"/.build", fmt.Sprintf("c17-replay-%d.json", os.Getpid()))
 		b, _ := json.Marshal(cs)
 		os.WriteFile(tmp, b, 0o644)
 		defer os.Remove(tmp)
-		out, err := exec.Command("/verif/.build/vc17s", "replay", tmp).CombinedOutput()
+		out, err := exec.Command(Home()+"/.build/vc17s", "replay", tmp).CombinedOutput()
 		if ee, ok := err.(*exec.ExitError); ok && ee.ExitCode() == 1 {
 			c.Violate("sched/replay", strings.TrimSpace(string(out)), "sched", cs)
 		}
 	case "race":
-		tmp := filepath.Join("/verif/.build", fmt.Sprintf("c17-replay-%d.json", os.Getpid()))
+		tmp := filepath.Join(Home()+"/.build", fmt.Sprintf("c17-replay-%d.json", os.Getpid()))
 		b, _ := json.Marshal(cs)
 		os.WriteFile(tmp, b, 0o644)
 		defer os.Remove(tmp)
-		cmd := exec.Command("/verif/.build/vc17r", "race-one", tmp)
+		cmd := exec.Command(Home()+"/.build/vc17r", "race-one", tmp)
 		cmd.Env = append(os.Environ(), "GORACE=halt_on_error=0 exitcode=0")
 		out, _ := cmd.CombinedOutput()
 		if strings.Contains(string(out), "WARNING: DATA RACE") || strings.Contains(string(out), "violated:") {
